@@ -17,7 +17,7 @@ void check_C04(Src &s, Ctx &ctx) {
     ctx.log(st.spec.text()); ctx.log(st.vm.text());
     static const std::vector<int> kinds = {OP_LOAD, OP_REF_SURP, OP_REF_SURP, OP_REF_SURP, OP_REF_ANISO, OP_REF_ANISO, OP_RELOAD, OP_UPDATE, OP_UPDATE, OP_CLEAR_REF, OP_MERGE, OP_MERGE, OP_SET_COEFF, OP_SET_COEFF,
                                            OP_BEGIN_CONSTR, OP_BEGIN_CONSTR, OP_CANDIDATES, OP_LOAD_CONSTR, OP_FINISH_CONSTR, OP_ROUNDTRIP};
-    int nops = 1 + s.pick(8);
+    int nops = 1 + s.pick(12);
     run_history(s, st, kinds, nops, true, [&](const Op &) {});
     auto &g = st.g; const int d = st.spec.dims, outs = st.spec.outs;
     if (g.getNumLoaded() == 0) { ctx.label("skip:no-values"); return; }
@@ -183,6 +183,7 @@ void check_C04(Src &s, Ctx &ctx) {
     bool pending = g.getNumNeeded() > 0; bool merged = false; for (auto &t : st.trace) if (t == "Merge") merged = true;
     ctx.label(std::string("fam:") + fam_name(st.spec.family));
     if (pending) ctx.label("state:pending"); if (merged) ctx.label("state:merged"); if (st.constructing) ctx.label("state:constructing"); if (coeff_overwritten) ctx.label("state:coeff-overwritten");
+    if (g.isLocalPolynomial() && !lp_complete) ctx.label(d >= 3 ? "lp:gaps-d>=3" : "lp:gaps-d<=2");
     if (nx >= 32) ctx.label("batch>=32"); if (n_boundary) ctx.label("x:support-boundary");
     ctx.nontrivial = (pending || merged || st.constructing || coeff_overwritten || st.n_refine > 0) && (nx >= 32 || n_boundary > 0);
 }
